@@ -292,8 +292,18 @@ func ExecSched(sc sim.Script) *sim.Outcome {
 						for _, n := range baseNodes {
 							target.PutNode(n.key, n.node.CloneNode())
 						}
-						t.mpt.SaveChanges(ctx, target, s.Reopen && op.N == 1)
-						savesOf[ti] = append(savesOf[ti], saveRec{call, simrt.Stamp(), target, op.K})
+						var serr error
+						if op.N == 2 {
+							// disk error: the store refuses the batch (nothing is written); a save that reports
+							// success is judged like any other
+							serr = t.mpt.SaveChanges(ctx, &refusingDB{NodeDB: target}, false)
+							opCount[ti]["save-into-a-store-that-refuses-the-write"]++
+						} else {
+							serr = t.mpt.SaveChanges(ctx, target, s.Reopen && op.N == 1)
+						}
+						if serr == nil || op.N != 2 {
+							savesOf[ti] = append(savesOf[ti], saveRec{call, simrt.Stamp(), target, op.K})
+						}
 					} else {
 						t.mpt.SaveChanges(ctx, saveDB, false)
 					}
@@ -573,6 +583,13 @@ func (o *orderedDB) Iterate(ctx context.Context, handler util.NodeDBIteratorHand
 }
 
 // signalDB tells the waiting task when SaveChanges' writer goroutine has delivered its batch.
+// refusingDB fails every batch write with an I/O error and writes nothing.
+type refusingDB struct{ util.NodeDB }
+
+func (r *refusingDB) MultiPutNode(keys []util.Key, nodes []util.Node) error {
+	return fmt.Errorf("injected I/O error: batch of %d nodes refused", len(keys))
+}
+
 func finishSched(w *world, res *sched.Result) *sim.Outcome {
 	o := &sim.Outcome{V: w.v, Stats: w.stats, Digest: w.log.Digest()}
 	for k := range w.states {
